@@ -7,6 +7,8 @@ CORS_CFG = """SPECIFICATION Spec
 CONSTANTS
   CBug = "%(bug)s"
   NameOrder <- NameOrderDef
+  AcrhOK <- AcrhOKElems
+  AcrhEcho <- AcrhEchoElems
   CheckPairs = %(pairs)s
 INVARIANTS %(invs)s
 CHECK_DEADLOCK FALSE
@@ -36,7 +38,18 @@ def describe(e):
         e["acrpn"], e["dbg"], e["resp"]["status"], json.dumps(e["raw"])[:400])
 
 
-def run_serve(c, prop, shards, what):
+CONFORM_CFG = """SPECIFICATION Spec
+CONSTANTS
+  CBug = "none"
+  NameOrder <- TraceNameOrder
+  AcrhOK <- AcrhOKBytes
+  AcrhEcho <- AcrhEchoTokens
+INVARIANT Final
+CHECK_DEADLOCK FALSE
+"""
+
+
+def run_serve(c, prop, shards, what, conform=False):
     """shards: list of driver-argument lists (run concurrently). Returns aggregated stats."""
     tot = {"served": 0, "configs": 0, "a": 0, "b": 0, "preflights": 0}
 
@@ -49,6 +62,16 @@ def run_serve(c, prop, shards, what):
         s = json.load(open(summ))
         bad, res = c.validate_trace("TraceServe", SERVE_CFG % prop, trace, tag="TraceServe_%s_%d" % (prop, k))
         evs = read_ndjson(trace) if (bad or res.get("known")) else None
+        if conform:
+            # full conformance of the request-handling model (Cors!Respond + ReqParse + Acrh) with the recorded responses
+            dr, cres = c.validate_trace("TraceConform", CONFORM_CFG, trace, tag="TraceConform_%s_%d" % (prop, k))
+            with c.lock:
+                c.cov["model_conformance_compared"] = c.cov.get("model_conformance_compared", 0) + cres["stats"]["compared"]
+                c.cov["model_conformance_drift"] = c.cov.get("model_conformance_drift", 0) + len(dr)
+            if dr:
+                evs = evs or read_ndjson(trace)
+                for idx in dr[:5]:
+                    c.drift.append("Cors!Respond predicts a different response: " + describe(evs[idx - 1])[:400])
         return k, s, bad, res, evs
 
     results = c.parallel([lambda k=k, args=args: one(k, args) for k, args in enumerate(shards)], max_workers=4)
